@@ -2,7 +2,7 @@
 //!   C09  totals and point-in-time member weights match the true history; raw keys == smart queries
 //!   C14  only the admin changes a group; hooks hear every change truthfully
 //! One case type, one interpreter; the oracle that is evaluated is chosen by the property id.
-use cosmwasm_std::{coin, from_json, Addr, Coin, CosmosMsg, Response, Uint128, WasmMsg};
+use cosmwasm_std::{coin, from_json, Addr, Api, Coin, CosmosMsg, Response, Uint128, WasmMsg};
 use cw20::Denom;
 use cw4::{
     member_key, AdminResponse, HooksResponse, Member, MemberChangedHookMsg, MemberListResponse,
@@ -236,7 +236,10 @@ fn stake_op(prop: &str) -> BoxedStrategy<Op> {
 fn blocks(op: BoxedStrategy<Op>, max_blocks: usize, max_ops: usize) -> BoxedStrategy<Vec<Block>> {
     // 255 stands for a very long pause (1 000 003 blocks)
     let gap = prop_oneof![3 => Just(0u8), 36 => 1u8..=5, 1 => Just(255u8)];
-    let block = (gap, proptest::collection::vec(op, 0..=max_ops)).prop_map(|(gap, ops)| Block { gap, ops });
+    let normal = (gap, proptest::collection::vec(op, 0..=max_ops)).prop_map(|(gap, ops)| Block { gap, ops });
+    // now and then the admin registers a whole battery of hooks in one block ("any number of hooks")
+    let burst = (11u8..14).prop_map(|n| Block { gap: 1, ops: (0..n).map(|i| Op::AddHook { by: Who::Admin, hook: 100 + i }).collect() });
+    let block = prop_oneof![40 => normal, 1 => burst];
     proptest::collection::vec(block, 0..=max_blocks).boxed()
 }
 
@@ -351,6 +354,10 @@ impl World {
         self.addr_strs[ix as usize % N_ADDR_ALL as usize].clone()
     }
     fn hook_str(&self, ix: u8) -> String {
+        // indices from 100 up: further hook contracts (a battery registered in one block)
+        if ix >= 100 {
+            return self.d.api.addr_make(&format!("xhook{ix}")).to_string();
+        }
         self.hook_strs[ix as usize % N_HOOK_ALL as usize].clone()
     }
 
@@ -632,7 +639,7 @@ fn check_c14_step(
     // a registered hook is a contract address in its one normalised spelling (another spelling of a
     // registered address would be the same contract heard twice)
     for h in &post.hooks {
-        if !w.hook_strs.iter().take(N_HOOK as usize).any(|x| x == h) {
+        if w.d.api.addr_validate(h).is_err() {
             return Err(v(prop, "hook-not-a-normalised-address", format!("{at}: the hook list contains {h}, which is not a normalised address (hooks {:?})", post.hooks)));
         }
     }
@@ -1305,6 +1312,11 @@ fn d_blocks(u: &mut arbitrary::Unstructured, prop: &str, group: bool) -> Vec<Blo
             1 => 1 + arb_below(u, 5) as u8,
             _ => 255,
         };
+        if arb_bool(u, 1, 41) {
+            let n = 11 + arb_below(u, 3) as u8;
+            blocks.push(Block { gap: 1, ops: (0..n).map(|i| Op::AddHook { by: Who::Admin, hook: 100 + i }).collect() });
+            continue;
+        }
         let n = arb_below(u, max_ops + 1);
         let ops = (0..n).map(|_| if group { d_group_op(u, prop) } else { d_stake_op(u, prop) }).collect();
         blocks.push(Block { gap, ops });
